@@ -12,7 +12,9 @@ Leaves are named in pre-order: p0.., c0.., s0.. (subtests), b0.. (branches), g0.
 """
 import enum
 import itertools
+import os
 import sys
+import tempfile
 import threading
 import time
 import weakref
@@ -66,6 +68,7 @@ class ClockShim(object):
 
 
 CLOCK = ClockShim()
+SLOW_S = 100.0     # default phase timeout is 180 s
 CURRENT = {'ctx': None}
 
 
@@ -152,6 +155,7 @@ class RunCtx(object):
   def __init__(self):
     self.calls = []       # ('p0', n) body invocations, ('diag', 'p0', idx), ('run_if', 'p0')
     self.counts = {}
+    self.over = False     # set when execute() has returned: lets deliberately deaf bodies end
 
 
 class NoCopy(object):
@@ -182,10 +186,28 @@ def make_phase(name, beh, ctx):
       test.measurements['m_' + name] = 11
     elif m == 'marg':
       test.measurements['m_' + name] = 9.5
+    elif m == 'dimset':
+      test.measurements['m_' + name][1] = 5
     if r == 'hang':
       CLOCK.hanging.add(threading.current_thread())
       while True:
         time.sleep(0.0005)
+    if r == 'hangdeaf':
+      # never returns and ignores the termination request too (stuck in a call that cannot be interrupted): the
+      # executor leaves the thread behind alive; it ends when the harness says the run is over
+      CLOCK.hanging.add(threading.current_thread())
+      while not ctx.over:
+        try:
+          time.sleep(0.0005)
+        except BaseException:  # pylint: disable=broad-except
+          pass
+      return None
+    if r in ('slowrepeat', 'slowok'):
+      # a body that takes more than half of the phase timeout (on the executor's clock): two such attempts together
+      # exceed it, each one alone does not
+      CLOCK.offset += SLOW_S
+      time.sleep(0.02)           # still running when the executor next looks at its deadline
+      return h.PhaseResult.REPEAT if r == 'slowrepeat' else None
     if r == 'raise':
       raise PhaseBoom('boom in %s' % name)
     if r == 'sysexit':
@@ -214,6 +236,9 @@ def make_phase(name, beh, ctx):
   if meas == 'nocopy':
     # a validator that cannot be deep-copied: building the phase state fails *inside the executor thread*
     ph = h.measures(h.Measurement('m_' + name).with_validator(NoCopy()))(ph)
+  elif meas in ('dimunset', 'dimset'):
+    # a dimensioned measurement without validators: 'dimunset' never gives it a point, 'dimset' gives it one
+    ph = h.measures(h.Measurement('m_' + name).with_dimensions('x'))(ph)
   elif meas != 'none':
     ph = h.measures(h.Measurement('m_' + name).in_range(0, 10, marginal_maximum=9))(ph)
   if beh.get('plug'):
@@ -241,10 +266,16 @@ def make_phase_diag(pname, idx, d, ctx):
       return None
     if d == 'iA':
       return dl.Diagnosis(R.A, 'internal', is_internal=True)
+    if d == 'AFlist':      # an always-fail diagnoser handing back several plain diagnoses at once
+      return [dl.Diagnosis(R.A, 'descr'), dl.Diagnosis(R.B, 'descr')]
+    if d == 'AF1':         # an always-fail diagnoser handing back one plain diagnosis
+      return dl.Diagnosis(R.A, 'descr')
+    if d == 'ABlist':      # an ordinary diagnoser handing back a tuple of plain diagnoses
+      return (dl.Diagnosis(R.A, 'descr'), dl.Diagnosis(R.B, 'descr'))
     return dl.Diagnosis(getattr(R, d), 'descr', is_failure=d.startswith('F'))
 
   run.__name__ = 'diag_%s_%d' % (pname, idx)
-  return dl.PhaseDiagnoser(R, name=run.__name__)(run)
+  return dl.PhaseDiagnoser(R, name=run.__name__, always_fail=d in ('AFlist', 'AF1'))(run)
 
 
 def make_test_diag(idx, d, ctx):
@@ -342,12 +373,18 @@ def run_spec(spec_nodes, settings=None, extra_callbacks=(), test_start=None, kee
   conf = L['conf']
   if conf_loaded:
     conf.load(**conf_loaded)
+  prof = None
+  if settings.get('profile'):
+    prof = os.path.join(tempfile.gettempdir(), 'vf-prof-%d' % os.getpid())
   try:
     res, recs, test, thread_errors = htf.run_test(nodes, test_start=test_start, callbacks=extra_callbacks,
-                                                  options=options, diagnosers=tdiags)
+                                                  options=options, diagnosers=tdiags, profile_filename=prof)
   finally:
+    ctx.over = True
     if conf_loaded:
       conf.reset()
+    if prof and os.path.exists(prof):
+      os.remove(prof)
   obs = {'ret': res if isinstance(res, bool) else 'EXC:%s' % type(res).__name__, 'calls': list(ctx.calls),
          'thread_errors': thread_errors, 'n_records': len(recs)}
   if recs:
